@@ -441,6 +441,16 @@ def _from(eng, t, a, fr, dt):
         return VecV(tuple(deref_all(x) for x in seq_items(eng, v)))
     if st == 'String':
         return as_str_nofork(v)
+    # lossless integer conversions (u32::from(x_u8), x_u8.into())
+    tgt = st
+    if t.key.endswith('into'):
+        mi = re.search(r'Into<\s*(\w+)\s*>', t.raw or '')
+        tgt = mi.group(1) if mi else None
+    vv = deref_all(v)
+    if tgt in BITS and (type(vv) is Int or type(vv) is bool or isinstance(vv, z3.BoolRef)):
+        if type(vv) is Int and vv.ty in BITS and BITS[vv.ty] > BITS[tgt]:
+            raise Unmodelled('narrowing From %s for %s' % (vv.ty, tgt))
+        return int_cast(vv, tgt)
     raise Unmodelled('From for ' + str(t.self_ty))
 
 
@@ -1082,6 +1092,28 @@ def _reverse(eng, t, a, fr, dt):
     return UNIT
 
 
+@reg('[]::copy_from_slice', '[]::clone_from_slice')
+def _copy_from_slice(eng, t, a, fr, dt):
+    # destination: the container behind the reference chain and the sub-range the slice covers
+    rng = None
+    v = a[0]
+    while type(v) is Ref:
+        if v.rng is not None:
+            rng = v.rng
+        v = eng.load(v)
+    r = _innermost_ref(eng, a[0])
+    cont = eng.load(r)
+    src = tuple(deref_all(x) for x in seq_items(eng, a[1]))
+    items = cont.items if type(cont) is VecV else cont.f
+    lo, hi = rng if rng is not None else (0, len(items))
+    if hi - lo != len(src):
+        raise Panic('copy_from_slice: source slice length (%d) does not match destination slice length (%d)'
+                    % (len(src), hi - lo))
+    new = tuple(items[:lo]) + src + tuple(items[hi:])
+    eng.store(r, VecV(new) if type(cont) is VecV else Agg(cont.name, new))
+    return UNIT
+
+
 @reg('[]::contains')
 def _slice_contains(eng, t, a, fr, dt):
     x = a[1]
@@ -1131,6 +1163,8 @@ def key_eq(a, b):
 def map_locate(eng, m, key):
     """Index of the entry whose key equals `key` on this path (forks), or None."""
     key = deref_all(key)
+    if type(key) is Int and type(key.v) is not int and len(m.e) > 4:
+        key = eng.ctx.resolve_int(key)
     if type(key) is Int and type(key.v) is int and len(m.e) > 4:
         d, sym = m.index()
         if not sym:
@@ -1172,6 +1206,8 @@ def _entry_ref(eng, mref, m, i):
 
 def map_contains(eng, m, key):
     key = deref_all(key)
+    if eng is not None and type(key) is Int and type(key.v) is not int and len(m.e) > 4:
+        key = eng.ctx.resolve_int(key)
     if type(key) is Int and type(key.v) is int and len(m.e) > 4:
         d, sym = m.index()
         if not sym:
@@ -1198,6 +1234,8 @@ def _map_insert(eng, mref, key, val):
     r = _innermost_ref(eng, mref)
     m = eng.load(r)
     key = deref_all(key) if type(key) is Ref else key
+    if type(key) is Int and type(key.v) is not int:
+        key = eng.ctx.resolve_int(key)
     i = map_locate(eng, m, key)
     if i is None:
         eng.store(r, MapV(m.e + ((key, True, val),), m.kind))
@@ -1346,6 +1384,9 @@ def _hm_entry(eng, t, a, fr, dt):
 def _entry_or_insert(eng, ent, mk_default):
     r, key = ent.data
     m = eng.load(r)
+    key = deref_all(key) if type(key) is Ref else key
+    if type(key) is Int and type(key.v) is not int:
+        key = eng.ctx.resolve_int(key)
     i = map_locate(eng, m, key)
     if i is not None and entry_present(eng, r, m, i):
         return Ref(r.base, r.path + (('m', i),))
